@@ -93,7 +93,8 @@ theorem clock_step {cfg : Cfg} {hs : Hashes} {s : St} (h : Inv cfg hs s) (op : O
     ((step cfg hs s op).supply d).elapsed = (s.supply d).elapsed ∧
     (step cfg hs s op).prevTime = s.prevTime ∧ (step cfg hs s op).time = s.time := by
   rcases step_cases cfg hs s op with e | ⟨hash, ts, span, sender, rcp, other, coins, rfl, hok⟩ |
-    ⟨frm, id, rn, rfl, hok⟩ | ⟨frm, id, rfl, hok⟩ | ⟨dh, dt, rfl, e⟩ | ⟨d', l, tl, p, tbl, act, rfl, e⟩
+    ⟨frm, id, rn, rfl, hok⟩ | ⟨frm, id, rfl, hok⟩ | ⟨dh, dt, rfl, e⟩ | ⟨d', l, tl, p, tbl, act, rfl, e⟩ |
+    ⟨dq, depq, rfl, e⟩
   · rw [e]; exact ⟨rfl, rfl, rfl⟩
   · obtain ⟨d0, amt, a, dir, sup, bal', rfl, hnew, -, -, -, -, -, -, -, hcase, hs'⟩ := create_spec hok
     rw [hs']
@@ -165,6 +166,7 @@ theorem clock_step {cfg : Cfg} {hs : Hashes} {s : St} (h : Inv cfg hs s) (op : O
         rfl
       · rw [upd_other _ _ hd]
   · exact absurd rfl (hnb dh dt)
+  · rw [e]; exact ⟨rfl, rfl, rfl⟩
   · rw [e]; exact ⟨rfl, rfl, rfl⟩
 
 end KV.Bep3
